@@ -71,12 +71,48 @@ func main() {
 		}
 	}
 	seed, _ := strconv.Atoi(os.Getenv("VERIF_SEED"))
+	if *prop == "all" && *variant == "" && *tier == "quick" {
+		// one load, every property: used by the mutation campaign scripts (scratch -verif directory)
+		var ids []string
+		for id := range props {
+			ids = append(ids, id)
+		}
+		sort.Strings(ids)
+		w := load(loadOpts{repo: *repo})
+		worst := 0
+		for _, id := range ids {
+			if c := runPropOn(props[id], w, *tier, *repo, *verif, seed); c > worst {
+				worst = c
+			}
+		}
+		os.Exit(worst)
+	}
 	p := props[*prop]
 	if p == nil {
 		fmt.Printf("unknown property %q\n", *prop)
 		os.Exit(2)
 	}
 	os.Exit(runProp(p, *tier, *repo, *verif, seed, *variant))
+}
+
+func runPropOn(p *propDef, w *World, tier, repo, verif string, seed int) (code int) {
+	start := time.Now()
+	defer func() {
+		if e := recover(); e != nil {
+			if hf, ok := e.(hardFail); ok {
+				fmt.Printf("CHECKER-ERROR property=%s: %s\n", p.id, hf.msg)
+			} else {
+				fmt.Printf("CHECKER-PANIC property=%s: %v\n%s\n", p.id, e, debug.Stack())
+			}
+			code = 2
+		}
+	}()
+	known := loadKnown(verif + "/known_findings.jsonl")
+	r := newReport(p.id, p.level)
+	setInlinePolicy(w)
+	p.run(w, r, tier)
+	return r.finish(finishOpts{verifDir: verif, tier: tier, seed: seed, start: start, w: w, known: known,
+		cmd: fmt.Sprintf("./bin/xcheck -prop %s -tier %s", p.id, tier), trusted: append(append([]string{}, commonTrusted...), p.trusted...), explain: p.explain, assume: p.assume, extra: map[string]interface{}{}})
 }
 
 func runProp(p *propDef, tier, repo, verif string, seed int, variant string) (code int) {
